@@ -69,6 +69,8 @@ func sgn(v int) int {
 	return 0
 }
 
+func init() { register("C19", runC19) }
+
 func runC19(seed int64, tier string, outDir string) *result {
 	rng := rand.New(rand.NewSource(seed))
 	res := &result{Property: "C19", Seed: seed, Tier: tier, Stats: map[string]interface{}{}}
